@@ -238,3 +238,29 @@ def expanded(func: ast.AST, expr: ast.AST, depth: int = 4) -> ast.AST:
             return node
 
     return R(depth).visit(copy.deepcopy(expr))
+
+
+def sorted_tuple_of(func: ast.AST, ret: ast.Return):
+    """If `ret` returns a sorted tuple of some list, the name / text of that list: accepts
+    `tuple(sorted(L))` and `L.sort()` (unconditional, after the last other change of L's
+    order) followed by `tuple(L)`.  None otherwise."""
+    from .control import dominates, stmt_of
+    from .program import norm as _norm
+
+    v = ret.value
+    if not (isinstance(v, ast.Call) and _norm(v.func) == "tuple" and len(v.args) == 1):
+        return None
+    a = v.args[0]
+    if isinstance(a, ast.Call) and _norm(a.func) == "sorted" and len(a.args) == 1 and not [k for k in a.keywords if k.arg not in ("key",) or _norm(k.value) != "None"]:
+        return _norm(a.args[0])
+    if isinstance(a, ast.Name):
+        sorts = [c for c in walk_local(func) if isinstance(c, ast.Call) and isinstance(c.func, ast.Attribute) and c.func.attr == "sort"
+                 and isinstance(c.func.value, ast.Name) and c.func.value.id == a.id and not c.args and not c.keywords]
+        for s in sorts:
+            if dominates(func, stmt_of(s), ret):
+                # nothing reorders / extends the list between the sort and the return
+                later = [c for c in walk_local(func) if isinstance(c, ast.Call) and isinstance(c.func, ast.Attribute) and isinstance(c.func.value, ast.Name)
+                         and c.func.value.id == a.id and c.func.attr in ("append", "extend", "insert", "reverse", "pop", "remove") and c.lineno > s.lineno]
+                if not later:
+                    return a.id
+    return None
